@@ -342,8 +342,7 @@ def run(chk, replay=None):
         ev.tlc("Sched N=<<%d,%d>> P=%s grid=%s (%s||%s)" % (n1, n2, P, grid, a, b), rs)
         scheds = [v for t, v in rs.prints if t == "SCHED"]
         bad = 0
-        for sg in scheds:
-            res = run_.run(sg)
+        for sg, res in zip(scheds, run_.run_many(scheds)):
             nsched += 1
             for t, (iso, r) in enumerate(((iso1, refs[a]), (iso2, refs[b]))):
                 if res[t] != iso:
